@@ -128,7 +128,7 @@ func TestC14(t *testing.T) {
 	rapid.Check(t, func(t *rapid.T) {
 		cfg := hist.DrawCfg(t, 50, nil)
 		g := hist.NewGen(t, c14Weights, hist.Universe, 2, cfg.RecordSize)
-		g.Avoid = avoidFor("C14")
+		g.Avoid = f33Avoid(cfg, avoidFor("C14"))
 		if guard("F-33") && cfg.Compression == "parallelbzip2" && cfg.Encryption == "pgp" {
 			g.MaxSize = 90000
 		}
